@@ -18,7 +18,7 @@ from . import groups
 
 class Rig:
     def __init__(self, loop, case, kind="slow", al_delay=None, latency=None,
-                 fault=None, on_frame=None):
+                 fault=None, on_frame=None, on_response=None):
         self.loop = loop
         self.kind = kind
         self.case = case
@@ -32,6 +32,7 @@ class Rig:
         self.ec = FastEtherCat("verif") if kind == "fast" \
             else SimpleEtherCat("verif")
         self.on_frame = on_frame
+        self.on_response = on_response    # (no, sent, back) -> back
         self.transport = simbus.connect_frame_level(
             self.ec, loop, _HookBus(self), latency=latency, fault=fault)
         self.frames = []      # (sent bytes, returned bytes)
@@ -99,5 +100,7 @@ class _HookBus:
                     struct.pack_into("<H", back, d.wkc_pos,
                                      (d.wkc + delta) & 0xffff)
             back = bytes(back)
+        if rig.on_response is not None:
+            back = rig.on_response(no, bytes(frame), bytes(back))
         rig.frames.append((bytes(frame), bytes(back)))
         return back
